@@ -57,4 +57,17 @@ PROPS = {
         'explanation': 'theorems about the ideal (big-endian) model over all histories; the real store is compared exactly with the '
                        'executable model with the little-endian switch ON (the known finding), so any other divergence is reported',
     },
+    'C19': {
+        'lean_targets': ['Shisui.Props.C19'],
+        'min_obligations': 7,
+        'runs': [{'name': 'versions', 'harness': ['C19'], 'driver': ['C19']}],
+        'rule': 'findBiggestSameNumber on ALL pairs of lists of length 0..3 over {0,1,2} (1600 pairs, exhaustive for that domain) and random '
+                'lists over 0..255; getOrStoreHighestVersion call histories of 1..3 calls on a fresh cache for every own-list x peer '
+                'advertisement (every short list, missing entry, undecodable entry) and random ones; non-trivial = both lists non-empty; '
+                'distinct = distinct lines',
+        'trusted': ['go-pkgz expirable cache modelled as Option (one peer); ENR entry decoding (rlp) trusted'],
+        'assumptions': ['own version list non-empty (currentVersions[0] is read unguarded)'],
+        'explanation': 'theorems about the ideal negotiation for all lists and all call histories; the code is compared with the model '
+                       'with the store-on-error switch ON (known finding, pinned by TestGetOrStoreHighestVersion)',
+    },
 }
